@@ -22,7 +22,7 @@ Ltac splits := repeat match goal with |- _ /\ _ => split end.
 
 (* the world after the creation of the closure d, bound to the name fd_var d *)
 Definition world_add (W : world) (d : fdyn) : world :=
-  mkWorld (w_R W) (fun c p d' => w_F W c p d' \/ (c = fd_cf d /\ p = fd_pf d /\ d' = d))
+  mkWorld (w_R W) (fun c p K => w_F W c p K \/ (c = fd_cf d /\ p = fd_pf d /\ K = dkind d))
           (fun d' => w_D W d' \/ d' = d) (w_P W) (w_pc W).
 
 Lemma wsub_world_add W d : wsub W (world_add W d).
@@ -55,10 +55,10 @@ Lemma rel_define_function fl W sc e st E stL fv ps ks rk body g k bc ctx c c2 l 
 Proof.
   intros (Hfs & W1 & Hs1 & Hrel0) Hfresh Hpok Hlks Hfb Hlow Hub Hbc Hlut HEf E1 d.
   pose proof Hrel0 as [Hb Hfbd Hp Hpb HpE HpG Hwf Ht Hli HW].
-  pose proof HW as [H1 H2 H3 H4 H5 H6 H7 Hff H8 H9 H10 Hall Hlock H11 H13 H14].
+  pose proof HW as [H1 H2 H3 H4 H5 H6 H7 Hff H8 H9 H10 Hall Hlock H11 H13 H14 Hfi].
   assert (H12 : forall f ar, In (f, ar) fl -> ar <> KP ->
-            exists c0 p d', SyltSem.lookup e f = Some c0 /\ sget (fmt_var f) E = Some p /\ w_F W1 c0 p d' /\ dkind d' = ar).
-  { intros f ar Hin HK. destruct (Hfs f ar Hin HK) as (c0 & p & d' & A & B & C & D & _). exists c0, p, d'.
+            exists c0 p, SyltSem.lookup e f = Some c0 /\ sget (fmt_var f) E = Some p /\ w_F W1 c0 p ar).
+  { intros f ar Hin HK. destruct (Hfs f ar Hin HK) as (c0 & p & A & B & C). exists c0, p.
     destruct Hs1 as (_ & HF & _). auto. }
   destruct (fresh_id_inv _ _ _ _ _ _ Hfresh) as (Hnin & Hnpv & Hnsv & Hfvb).
   pose proof (fresh_id_fl _ _ _ _ _ _ Hfresh) as Hnfl.
@@ -73,7 +73,7 @@ Proof.
   assert (HRc : forall c0 p b, w_R W1 c0 p b -> (c0 < length (SyltSem.cells st))%nat /\ (p < s_ncell stL)%positive).
   { intros c0 p b Hr. destruct (H1 c0 p b Hr) as (y & A & _ & B). split; [apply nth_error_Some; congruence | exact B]. }
   assert (HFc : forall c0 p d0, w_F W1 c0 p d0 -> (c0 < length (SyltSem.cells st))%nat /\ (p < s_ncell stL)%positive).
-  { intros c0 p d0 Hf. destruct (H6 c0 p d0 Hf) as (A & _ & B & _). split; [apply nth_error_Some; congruence | exact B]. }
+  { intros c0 p d0 Hf. destruct (H6 c0 p d0 Hf) as (dd & A & _ & B & _). split; [apply nth_error_Some; congruence | exact B]. }
   (* the scope seen from the new environments *)
   assert (Hsc2 : forall v, In v sc -> exists c0 p, SyltSem.lookup (def_env fv e st) v = Some c0 /\ sget (fmt_var v) E1 = Some p /\ w_R W1 c0 p true).
   { intros v Hv. destruct (H11 v Hv) as (c0 & p & A & B & C). exists c0, p.
@@ -81,17 +81,17 @@ Proof.
     unfold def_env. cbn [SyltSem.lookup]. destruct (N.eqb_spec fv v); [congruence|].
     split; [exact A | split; [unfold E1; rewrite sget_sset_var by exact Hne; exact B | exact C]]. }
   assert (Hfl2 : forall f ar, In (f, ar) fl' -> ar <> KP ->
-            exists c0 p d', SyltSem.lookup (def_env fv e st) f = Some c0 /\ sget (fmt_var f) E1 = Some p /\
-                            w_F (world_add W1 d) c0 p d' /\ dkind d' = ar).
+            exists c0 p, SyltSem.lookup (def_env fv e st) f = Some c0 /\ sget (fmt_var f) E1 = Some p /\
+                         w_F (world_add W1 d) c0 p ar).
   { intros f ar [Heq|Hin] HK.
-    - inversion Heq; subst f ar. exists (length (SyltSem.cells st)), (s_ncell stL), d.
+    - inversion Heq; subst f ar. exists (length (SyltSem.cells st)), (s_ncell stL).
       unfold def_env. cbn [SyltSem.lookup]. rewrite N.eqb_refl.
-      split; [reflexivity | split; [apply sget_sset_same | split; [right; cbn [d fd_cf fd_pf]; auto | reflexivity]]].
-    - destruct (H12 f ar Hin HK) as (c0 & p & d' & A & B & C & D). exists c0, p, d'.
+      split; [reflexivity | split; [apply sget_sset_same | right; cbn [d fd_cf fd_pf dkind fd_pk fd_rk]; auto]].
+    - destruct (H12 f ar Hin HK) as (c0 & p & A & B & C). exists c0, p.
       assert (Hne : f <> fv).
       { intros ->. apply Hnfl. unfold fnames. change fv with (fst (fv, ar)). apply in_map. exact Hin. }
       unfold def_env. cbn [SyltSem.lookup]. destruct (N.eqb_spec fv f); [congruence|].
-      split; [exact A | split; [unfold E1; rewrite sget_sset_var by exact Hne; exact B | split; [left; exact C | exact D]]]. }
+      split; [exact A | split; [unfold E1; rewrite sget_sset_var by exact Hne; exact B | left; exact C]]. }
   assert (Htm2 : forall t p, bound <= t -> sget (fmt_var t) E1 = Some p -> not_user (world_add W1 d) p).
   { intros t p Hbt Hq. unfold E1 in Hq. rewrite sget_sset_var in Hq by lia. destruct (H14 t p Hbt Hq) as [Hn1 Hn2].
     split; [exact Hn1|]. intros c0 d0 [Hf|(_ & -> & _)]; [exact (Hn2 c0 d0 Hf)|].
@@ -119,14 +119,14 @@ Proof.
     split; [intros d0 [Hd0|Hd0]; [left; apply C; exact Hd0 | right; exact Hd0]|]. split; assumption. }
   split.
   { intros f ar [Heq|Hin] HK.
-    - inversion Heq; subst f ar. exists (length (SyltSem.cells st)), (s_ncell stL), d.
+    - inversion Heq; subst f ar. exists (length (SyltSem.cells st)), (s_ncell stL).
       unfold def_env. cbn [SyltSem.lookup]. rewrite N.eqb_refl.
-      split; [reflexivity | split; [apply sget_sset_same | split; [right; cbn [d fd_cf fd_pf]; auto | split; [reflexivity | right; reflexivity]]]].
-    - destruct (Hfs f ar Hin HK) as (c0 & p & d' & A & B & C & D & F). exists c0, p, d'.
+      split; [reflexivity | split; [apply sget_sset_same | right; cbn [d fd_cf fd_pf dkind fd_pk fd_rk]; auto]].
+    - destruct (Hfs f ar Hin HK) as (c0 & p & A & B & C). exists c0, p.
       assert (Hne : f <> fv).
       { intros ->. apply Hnfl. unfold fnames. change fv with (fst (fv, ar)). apply in_map. exact Hin. }
       unfold def_env. cbn [SyltSem.lookup]. destruct (N.eqb_spec fv f); [congruence|].
-      split; [exact A | split; [unfold E1; rewrite sget_sset_var by exact Hne; exact B | split; [left; exact C | split; [exact D | left; exact F]]]]. }
+      split; [exact A | split; [unfold E1; rewrite sget_sset_var by exact Hne; exact B | left; exact C]]. }
   exists (world_add W1 d). split; [exact Hs2|].
   constructor.
   - exact Hb.
@@ -150,12 +150,12 @@ Proof.
       * intros c' d0 [Hf|(_ & -> & _)]; [exact (B c' d0 Hf) | cbn [d fd_pf] in Hp0; lia].
     + exact H5.
     + intros c0 p d0 [Hf|(-> & -> & ->)].
-      * destruct (H6 c0 p d0 Hf) as (A & B & C & D).
+      * destruct (H6 c0 p d0 Hf) as (dd & A & B & C & D & Dk). exists dd.
         split; [unfold def_state; cbn [SyltSem.cells]; apply nth_error_app_old; exact A|].
-        split; [rewrite Hold by exact C; exact B|]. split; [rewrite Hnc2; lia | left; exact D].
-      * cbn [d fd_cf fd_pf fd_ci fd_fid].
+        split; [rewrite Hold by exact C; exact B|]. split; [rewrite Hnc2; lia | split; [left; exact D | exact Dk]].
+      * exists d. cbn [d fd_cf fd_pf fd_ci fd_fid].
         split; [unfold def_state; cbn [SyltSem.cells]; apply nth_error_app_new|].
-        split; [unfold stL2, lua_def_state; apply get_cell_set_same|]. split; [rewrite Hnc2; lia | right; reflexivity].
+        split; [unfold stL2, lua_def_state; apply get_cell_set_same|]. split; [rewrite Hnc2; lia | split; [right; reflexivity | reflexivity]].
     + intros c0 p d0 lv [Hf|(_ & -> & _)]; [exact (H7 c0 p d0 lv Hf)|].
       cbn [d fd_pf]. intros Hq. destruct (H8 _ _ Hq). lia.
     + intros c0 p d0 p' d0' [Hf|(-> & -> & ->)] [Hf'|(Hc' & Hp' & Hd')].
@@ -174,7 +174,7 @@ Proof.
         split; [intros x p Hx; specialize (D x p Hx); rewrite Hnc2; lia|].
         split; [exact F|]. split; [unfold def_state; cbn [SyltSem.clos]; rewrite app_length; lia|]. split; [exact G'|].
         split; [exact Hsc|].
-        split; [intros f ar Hin HK; destruct (Hfl f ar Hin HK) as (c0 & p & d' & X & Y & Z & T); exists c0, p, d'; auto|].
+        split; [intros f ar Hin HK; destruct (Hfl f ar Hin HK) as (c0 & p & X & Y & Z); exists c0, p; auto|].
         intros t p Hbt Hq. destruct (Htm t p Hbt Hq) as [Hn1 Hn2]. split; [exact Hn1|].
         intros c0 d1 [Hf|(_ & -> & _)]; [exact (Hn2 c0 d1 Hf)|]. specialize (D _ _ Hq). cbn [d fd_pf] in D. lia.
       * split; [exact Hstatic|]. cbn [d fd_ci fd_params fd_body fd_ef fd_fid fd_Ef fd_sc fd_fl].
@@ -193,6 +193,11 @@ Proof.
     + exact Hsc2.
     + intros v Hvin [Heq|Hf]; [cbn [fst] in Heq; subst v; contradiction | exact (H13 v Hvin Hf)].
     + exact Htm2.
+    + intros c0 c0' p K0 K0' [Hf|(-> & -> & _)] [Hf'|(-> & Hp' & _)].
+      * exact (Hfi c0 c0' p K0 K0' Hf Hf').
+      * subst p. destruct (HFc _ _ _ Hf). cbn [d fd_pf] in *. lia.
+      * destruct (HFc _ _ _ Hf'). cbn [d fd_pf] in *. lia.
+      * reflexivity.
 Qed.
 
 End DefFun.
@@ -239,7 +244,7 @@ Lemma rel_lookup_ext sc e e' st E stL :
   (forall v, SyltSem.lookup e' v = SyltSem.lookup e v) -> rel sc e st E stL -> rel sc e' st E stL.
 Proof.
   intros Hl (Hfs & W1 & Hs1 & [Hb Hfb Hp Hpb HpE HpG Hwf Ht Hli HW]).
-  split; [intros f ar Hin HK; destruct (Hfs f ar Hin HK) as (c & p & d & A & B); exists c, p, d; rewrite Hl; auto|].
+  split; [intros f ar Hin HK; destruct (Hfs f ar Hin HK) as (c & p & A & B); exists c, p; rewrite Hl; auto|].
   exists W1. split; [exact Hs1|]. constructor; auto.
   - rewrite Hl. exact Hp.
   - apply (winv_env pv sv bound u fl W1 sc e st E stL fl sc e' E HW).
@@ -279,37 +284,37 @@ Variable bound : N.
 Variable u : counts.
 
 (* the world with the two cells of a function parameter that holds the closure d *)
-Definition world_addF (W0 : world) (c : nat) (p : positive) (d : fdyn) : world :=
-  mkWorld (w_R W0) (fun c' p' d' => w_F W0 c' p' d' \/ (c' = c /\ p' = p /\ d' = d)) (w_D W0) (w_P W0) (w_pc W0).
+Definition world_addF (W0 : world) (c : nat) (p : positive) (K : kind) : world :=
+  mkWorld (w_R W0) (fun c' p' K' => w_F W0 c' p' K' \/ (c' = c /\ p' = p /\ K' = K)) (w_D W0) (w_P W0) (w_pc W0).
 
 Lemma wsub_addF W0 c p d : wsub W0 (world_addF W0 c p d).
 Proof. unfold wsub, world_addF. cbn. repeat split; auto. Qed.
 
 Lemma rel_define_fparam fl W sc e st E stL var d :
   rel pv sv bound u fl W sc e st E stL -> fresh_id pv sv bound fl sc var = true -> w_D W d ->
-  rel pv sv bound u ((var, dkind d) :: fl) (world_addF W (length (SyltSem.cells st)) (s_ncell stL) d) sc
+  rel pv sv bound u ((var, dkind d) :: fl) (world_addF W (length (SyltSem.cells st)) (s_ncell stL) (dkind d)) sc
       ((var, length (SyltSem.cells st)) :: e) (s_alloc st (SyltSem.SClos (fd_ci d)))
       (sset (fmt_var var) (s_ncell stL) E) (snd (alloc_cell stL (VFun (fd_fid d)))).
 Proof.
   intros (Hfs & W1 & Hs1 & [Hb Hfb Hp Hpb HpE HpG Hwf Ht Hli HW]) Hfresh Hd.
   destruct (fresh_id_inv _ _ _ _ _ _ Hfresh) as (Hnin & Hnpv & Hnsv & Hvb). pose proof (fresh_id_fl _ _ _ _ _ _ Hfresh) as Hnfl.
-  pose proof HW as [H1 H2 H3 H4 H5 H6 H7 Hff H8 H9 H10 Hall Hlock H11 H13 H14].
+  pose proof HW as [H1 H2 H3 H4 H5 H6 H7 Hff H8 H9 H10 Hall Hlock H11 H13 H14 Hfi].
   assert (Hd1 : w_D W1 d) by (destruct Hs1 as (_ & _ & HD & _); apply HD; exact Hd).
   set (c0 := length (SyltSem.cells st)). set (p0 := s_ncell stL).
   assert (HRc : forall c p b, w_R W1 c p b -> (c < c0)%nat /\ (p < p0)%positive).
   { intros c p b Hr. destruct (H1 c p b Hr) as (y & A & _ & B). split; [apply nth_error_Some; congruence | exact B]. }
   assert (HFc : forall c p d', w_F W1 c p d' -> (c < c0)%nat /\ (p < p0)%positive).
-  { intros c p d' Hf. destruct (H6 c p d' Hf) as (A & _ & B & _). split; [apply nth_error_Some; congruence | exact B]. }
+  { intros c p d' Hf. destruct (H6 c p d' Hf) as (dd & A & _ & B & _). split; [apply nth_error_Some; congruence | exact B]. }
   split.
   { intros f K [Heq|Hin] HK.
-    - inversion Heq; subst f K. exists c0, p0, d. cbn [SyltSem.lookup]. rewrite N.eqb_refl.
-      split; [reflexivity | split; [apply sget_sset_same | split; [right; auto | split; [reflexivity | exact Hd]]]].
-    - destruct (Hfs f K Hin HK) as (c & p & d' & A & B & C & D & F). exists c, p, d'.
+    - inversion Heq; subst f K. exists c0, p0. cbn [SyltSem.lookup]. rewrite N.eqb_refl.
+      split; [reflexivity | split; [apply sget_sset_same | right; auto]].
+    - destruct (Hfs f K Hin HK) as (c & p & A & B & C). exists c, p.
       assert (Hne : f <> var).
       { intros ->. apply Hnfl. unfold fnames. apply in_map_iff. eexists. split; [|exact Hin]. reflexivity. }
       cbn [SyltSem.lookup]. destruct (N.eqb_spec var f); [congruence|].
-      split; [exact A | split; [rewrite sget_sset_var by exact Hne; exact B | split; [left; exact C | split; assumption]]]. }
-  exists (world_addF W1 c0 p0 d). split.
+      split; [exact A | split; [rewrite sget_sset_var by exact Hne; exact B | left; exact C]]. }
+  exists (world_addF W1 c0 p0 (dkind d)). split.
   { destruct Hs1 as (A & B & C & D & F). unfold wsub, world_addF. cbn.
     split; [exact A|]. split; [intros c p d' [Hf|Hf]; [left; apply B; exact Hf | right; exact Hf]|]. split; [exact C | split; assumption]. }
   constructor.
@@ -332,9 +337,9 @@ Proof.
       * intros c' d' [Hf|(_ & -> & _)]; [exact (B c' d' Hf) | unfold p0 in *; lia].
     + exact H5.
     + intros c p d' [Hf|(-> & -> & ->)].
-      * destruct (H6 c p d' Hf) as (A & B & C & D).
-        split; [apply nth_error_app_old; exact A|]. split; [rewrite get_cell_alloc_old; assumption|]. split; [cbn; lia | exact D].
-      * split; [apply nth_error_app_new|]. split; [apply get_cell_alloc_new|]. split; [cbn; unfold p0; lia | exact Hd1].
+      * destruct (H6 c p d' Hf) as (dd & A & B & C & D & Dk). exists dd.
+        split; [apply nth_error_app_old; exact A|]. split; [rewrite get_cell_alloc_old; assumption|]. split; [cbn; lia | split; [exact D | exact Dk]].
+      * exists d. split; [apply nth_error_app_new|]. split; [apply get_cell_alloc_new|]. split; [cbn; unfold p0; lia | split; [exact Hd1 | reflexivity]].
     + intros c p d' lv [Hf|(_ & -> & _)]; [exact (H7 c p d' lv Hf)|]. intros Hq. destruct (H8 _ _ Hq). unfold p0 in *. lia.
     + intros c p d1 p' d2 [Hf|(-> & -> & ->)] [Hf'|(Hc' & Hp' & Hd')].
       * exact (Hff c p d1 p' d2 Hf Hf').
@@ -346,7 +351,7 @@ Proof.
     + intros d0 Hd0. destruct (H10 d0 Hd0) as (A & B & C & D & F & G & G' & Hsc & Hfl & Htm).
       split; [exact A|]. split; [exact B|]. split; [exact C|]. split; [intros y p Hy; specialize (D y p Hy); cbn; lia|].
       split; [exact F|]. split; [exact G|]. split; [exact G'|]. split; [exact Hsc|].
-      split; [intros f K Hin HK; destruct (Hfl f K Hin HK) as (c & p & d' & X & Y & Z & T); exists c, p, d'; auto|].
+      split; [intros f K Hin HK; destruct (Hfl f K Hin HK) as (c & p & X & Y & Z); exists c, p; auto|].
       intros t p Hbt Hq. destruct (Htm t p Hbt Hq) as [Hn1 Hn2]. split; [exact Hn1|].
       intros c d1 [Hf|(_ & -> & _)]; [exact (Hn2 c d1 Hf)|]. specialize (D _ _ Hq). unfold p0 in *. lia.
     + exact Hall.
@@ -358,6 +363,11 @@ Proof.
     + intros w Hin [Heq|Hf]; [cbn [fst] in Heq; subst w; contradiction | exact (H13 w Hin Hf)].
     + intros t p Hbt Hq. rewrite sget_sset_var in Hq by lia. destruct (H14 t p Hbt Hq) as [Hn1 Hn2]. split; [exact Hn1|].
       intros c d1 [Hf|(_ & -> & _)]; [exact (Hn2 c d1 Hf)|]. pose proof (wf_alloc _ _ Hwf _ _ Hq). unfold p0 in *. lia.
+    + intros c c' p K K' [Hf|(-> & -> & _)] [Hf'|(-> & Hp' & _)].
+      * exact (Hfi c c' p K K' Hf Hf').
+      * subst p. destruct (HFc _ _ _ Hf). lia.
+      * destruct (HFc _ _ _ Hf'). lia.
+      * reflexivity.
 Qed.
 
 (* ---- a function-valued constant  x :: <function value>.  While the value is computed the two cells of x exist (they
@@ -373,7 +383,7 @@ Proof.
   destruct (fresh_id_inv _ _ _ _ _ _ Hfresh) as (Hnin & Hnpv & Hnsv & Hvb). pose proof (fresh_id_fl _ _ _ _ _ _ Hfresh) as Hnfl.
   split.
   { intros f K [Heq|Hin] HK; [inversion Heq; subst; contradiction|].
-    destruct (Hfs f K Hin HK) as (c & p & d & A & B & C). exists c, p, d.
+    destruct (Hfs f K Hin HK) as (c & p & A & B & C). exists c, p.
     assert (Hne : f <> x).
     { intros ->. apply Hnfl. unfold fnames. apply in_map_iff. eexists. split; [|exact Hin]. reflexivity. }
     cbn [SyltSem.lookup]. destruct (N.eqb_spec x f); [congruence|].
@@ -407,7 +417,7 @@ Lemma rel_cdef fl W sc e st0 E0 stL0 x W1 st E stL d :
   rel pv sv bound u ((x, KP) :: fl) W1 sc ((x, length (SyltSem.cells st0)) :: e) st E stL ->
   sget (fmt_var x) E = Some (s_ncell stL0) ->
   fresh_id pv sv bound fl sc x = true ->
-  rel pv sv bound u ((x, dkind d) :: fl) (world_addF (world_addD W d) (length (SyltSem.cells st0)) (s_ncell stL0) d) sc
+  rel pv sv bound u ((x, dkind d) :: fl) (world_addF (world_addD W d) (length (SyltSem.cells st0)) (s_ncell stL0) (dkind d)) sc
       ((x, length (SyltSem.cells st0)) :: e) (s_write st (length (SyltSem.cells st0)) (SyltSem.SClos (fd_ci d)))
       E (set_cell stL (s_ncell stL0) (VFun (fd_fid d))).
 Proof.
@@ -415,7 +425,7 @@ Proof.
   set (c := length (SyltSem.cells st0)) in *. set (p := s_ncell stL0) in *.
   destruct (fresh_id_inv _ _ _ _ _ _ Hfresh) as (Hnin & Hnpv & Hnsv & Hvb). pose proof (fresh_id_fl _ _ _ _ _ _ Hfresh) as Hnfl.
   pose proof Hrel1 as [Hb Hfb Hp Hpb HpE HpG Hwf Ht Hli HW].
-  pose proof HW as [H1 H2 H3 H4 H5 H6 H7 Hff H8 H9 H10 Hall Hlock H11 H13 H14].
+  pose proof HW as [H1 H2 H3 H4 H5 H6 H7 Hff H8 H9 H10 Hall Hlock H11 H13 H14 Hfi].
   pose proof (r0_world _ _ _ _ _ _ _ _ _ _ _ Hrel0) as HW0.
   assert (Hs01 : wsub W Wh) by (eapply wsub_trans; [eapply wsub_trans; [apply wsub_addR | exact Hs] | exact Hs1]).
   assert (HRcp : w_R Wh c p false).
@@ -437,22 +447,22 @@ Proof.
   { intros c0 p0 Hr. split.
     - intros ->. destruct (H2 c p0 p true false Hr HRcp) as [_ Hbb]. discriminate Hbb.
     - intros ->. assert (c0 = c) by (eapply H3; eassumption). subst c0. destruct (H2 c p p true false Hr HRcp) as [_ Hbb]. discriminate Hbb. }
-  set (W2h := mkWorld (fun c0 p0 b => w_R Wh c0 p0 b /\ c0 <> c) (fun c0 p0 d0 => w_F Wh c0 p0 d0 \/ (c0 = c /\ p0 = p /\ d0 = d))
+  set (W2h := mkWorld (fun c0 p0 b => w_R Wh c0 p0 b /\ c0 <> c) (fun c0 p0 d0 => w_F Wh c0 p0 d0 \/ (c0 = c /\ p0 = p /\ d0 = dkind d))
                       (w_D Wh) (w_P Wh) (w_pc Wh)).
   split.
   { intros f K [Heq|Hin] HK.
-    - inversion Heq; subst f K. exists c, p, d. cbn [SyltSem.lookup]. rewrite N.eqb_refl.
-      split; [reflexivity | split; [exact HxE | split; [right; auto | split; [reflexivity | right; reflexivity]]]].
-    - destruct (Hfs0 f K Hin HK) as (c0 & p0 & d0 & A0 & _ & C0 & D0 & F0).
-      destruct (Hfs1 f K (or_intror Hin) HK) as (c1 & p1 & d1 & A1 & B1 & C1 & _).
+    - inversion Heq; subst f K. exists c, p. cbn [SyltSem.lookup]. rewrite N.eqb_refl.
+      split; [reflexivity | split; [exact HxE | right; auto]].
+    - destruct (Hfs0 f K Hin HK) as (c0 & p0 & A0 & _ & C0).
+      destruct (Hfs1 f K (or_intror Hin) HK) as (c1 & p1 & A1 & B1 & C1).
       assert (Hne : f <> x).
       { intros ->. apply Hnfl. unfold fnames. apply in_map_iff. eexists. split; [|exact Hin]. reflexivity. }
       cbn [SyltSem.lookup] in A1 |- *. destruct (N.eqb_spec x f); [congruence|].
       assert (c1 = c0) by congruence. subst c1.
-      assert (HF0 : w_F Wh c0 p0 d0) by (destruct Hs01 as (_ & HF & _); apply HF; exact C0).
-      assert (HF1 : w_F Wh c0 p1 d1) by (destruct Hs1 as (_ & HF & _); apply HF; exact C1).
-      destruct (Hff c0 p1 d1 p0 d0 HF1 HF0) as [-> ->].
-      exists c0, p0, d0. split; [exact A0 | split; [exact B1 | split; [left; exact C0 | split; [exact D0 | left; exact F0]]]]. }
+      assert (HF0 : w_F Wh c0 p0 K) by (destruct Hs01 as (_ & HF & _); apply HF; exact C0).
+      assert (HF1 : w_F Wh c0 p1 K) by (destruct Hs1 as (_ & HF & _); apply HF; exact C1).
+      destruct (Hff c0 p1 K p0 K HF1 HF0) as [-> _].
+      exists c0, p0. split; [exact A0 | split; [exact B1 | left; exact C0]]. }
   exists W2h. split.
   { destruct Hs01 as (A & B & C & D & F). unfold wsub, W2h, world_addF, world_addD. cbn.
     split; [intros c0 p0 b Hr; split; [apply A; exact Hr | eapply HRW; exact Hr]|].
@@ -479,11 +489,11 @@ Proof.
       * intros c' d0 [Hf|(_ & Hp' & _)]; [exact (B c' d0 Hf)|]. subst p0. apply Hne. eapply H3; eassumption.
     + intros c0 p0 b lv [Hr _]. exact (H5 c0 p0 b lv Hr).
     + intros c0 p0 d0 [Hf|(-> & -> & ->)].
-      * destruct (H6 c0 p0 d0 Hf) as (A & B & C & D).
+      * destruct (H6 c0 p0 d0 Hf) as (dd & A & B & C & D & Dk). exists dd.
         assert (c0 <> c) by (intros ->; exact (HnF1 _ _ Hf)). assert (p0 <> p) by (intros ->; exact (HnF2 _ _ Hf)).
         split; [rewrite nth_set_nth_other by congruence; exact A|]. split; [rewrite get_cell_set_other by assumption; exact B|].
-        split; [exact C | exact D].
-      * split; [apply nth_set_nth_same; exact Hcl|]. split; [apply get_cell_set_same|]. split; [exact Hplt | exact Hdh].
+        split; [exact C | split; [exact D | exact Dk]].
+      * exists d. split; [apply nth_set_nth_same; exact Hcl|]. split; [apply get_cell_set_same|]. split; [exact Hplt | split; [exact Hdh | reflexivity]].
     + intros c0 p0 d0 lv [Hf|(_ & -> & _)]; [exact (H7 c0 p0 d0 lv Hf) | exact (H5 c p false lv HRcp)].
     + intros c0 p0 d0 p0' d0' [Hf|(-> & -> & ->)] [Hf'|(Hc' & Hp' & Hd')].
       * exact (Hff c0 p0 d0 p0' d0' Hf Hf').
@@ -496,7 +506,7 @@ Proof.
     + intros d0 Hd0. destruct (H10 d0 Hd0) as (A & B & C & D & F & G & G' & Hsc & Hfl & Htm).
       split; [exact A|]. split; [exact B|]. split; [exact C|]. split; [exact D|]. split; [exact F|]. split; [exact G|]. split; [exact G'|].
       split; [intros g Hg; destruct (Hsc g Hg) as (c1 & p1 & X & Y & Z); exists c1, p1; split; [exact X | split; [exact Y | split; [exact Z | apply (HRne _ _ Z)]]]|].
-      split; [intros f K Hin HK; destruct (Hfl f K Hin HK) as (c1 & p1 & d1 & X & Y & Z & T); exists c1, p1, d1; auto|].
+      split; [intros f K Hin HK; destruct (Hfl f K Hin HK) as (c1 & p1 & X & Y & Z); exists c1, p1; auto|].
       intros t p1 Hbt Hq. destruct (Htm t p1 Hbt Hq) as [Hn1 Hn2]. split; [intros c1 b [Hr _]; exact (Hn1 c1 b Hr)|].
       intros c1 d1 [Hf|(_ & -> & _)]; [exact (Hn2 c1 d1 Hf) | exact (Hn1 c false HRcp)].
     + exact Hall.
@@ -505,6 +515,11 @@ Proof.
     + exact H13.
     + intros t p1 Hbt Hq. destruct (H14 t p1 Hbt Hq) as [Hn1 Hn2]. split; [intros c1 b [Hr _]; exact (Hn1 c1 b Hr)|].
       intros c1 d1 [Hf|(_ & -> & _)]; [exact (Hn2 c1 d1 Hf) | exact (Hn1 c false HRcp)].
+    + intros c0 c0' p0 K0 K0' [Hf|(-> & -> & _)] [Hf'|(-> & Hp' & _)].
+      * exact (Hfi c0 c0' p0 K0 K0' Hf Hf').
+      * subst p0. destruct (HnF2 _ _ Hf).
+      * destruct (HnF2 _ _ Hf').
+      * reflexivity.
 Qed.
 
 (* the Lua side of the two steps *)
@@ -570,6 +585,79 @@ Proof.
       destruct (frag_fexpr pv sv bound fl k sc x) as [[|ks [|a r]]|]; try discriminate.
       destruct (frag_args pv sv bound fl k sc ks args); [|discriminate]. intros H; inversion H; discriminate.
   - cbn [frag_fexpr]. match goal with |- (if ?b then _ else _) = _ -> _ => destruct b; [|discriminate] end. intros H; inversion H; discriminate.
+Qed.
+
+(* ---- the assignment  h = <function value>  to a function name: both cells get the halves of the new closure ---- *)
+Lemma rel_fassign fl W sc e st E stL h K c p d :
+  rel pv sv bound u fl W sc e st E stL -> In (h, K) fl -> K <> KP -> w_D W d -> dkind d = K ->
+  SyltSem.lookup e h = Some c -> sget (fmt_var h) E = Some p ->
+  rel pv sv bound u fl W sc e (s_write st c (SyltSem.SClos (fd_ci d))) E (set_cell stL p (VFun (fd_fid d))).
+Proof.
+  intros (Hfs & Wh & Hs & Hrel0) Hin HK Hd Hdk Hlk Hq.
+  destruct (Hfs h K Hin HK) as (c' & p' & A & B & C). rewrite Hlk in A. inversion A; subst c'. rewrite Hq in B. inversion B; subst p'. clear A B.
+  pose proof Hrel0 as [Hb Hfb Hp Hpb HpE HpG Hwf Ht Hli HW].
+  pose proof HW as [H1 H2 H3 H4 H5 H6 H7 Hff H8 H9 H10 Hall Hlock H11 H13 H14 Hfi].
+  assert (HFh : w_F Wh c p K) by (destruct Hs as (_ & HF & _); apply HF; exact C).
+  assert (Hdh : w_D Wh d) by (destruct Hs as (_ & _ & HD & _); apply HD; exact Hd).
+  destruct (H6 c p K HFh) as (d0 & Hn0 & _ & Hplt & _).
+  assert (Hcl : (c < length (SyltSem.cells st))%nat) by (apply nth_error_Some; congruence).
+  split; [exact Hfs|]. exists Wh. split; [exact Hs|]. constructor.
+  - exact Hb.
+  - exact Hfb.
+  - exact Hp.
+  - exact Hpb.
+  - exact HpE.
+  - eapply glob_frame; [|exact HpG]. reflexivity.
+  - eapply wfenv_ext; [exact Hwf | cbn; lia].
+  - exact Ht.
+  - apply linv_set_cell. exact Hli.
+  - constructor; cbn [s_write SyltSem.cells SyltSem.clos].
+    + intros c0 p0 b Hr. destruct (H1 c0 p0 b Hr) as (y & A & B & C0). destruct (H4 c0 p0 b Hr) as [Hn1 Hn2]. exists y.
+      assert (c0 <> c) by (intros ->; exact (Hn1 _ _ HFh)). assert (p0 <> p) by (intros ->; exact (Hn2 _ _ HFh)).
+      split; [rewrite nth_set_nth_other by congruence; exact A|]. split; [|exact C0].
+      rewrite get_cell_set_other by assumption. exact B.
+    + exact H2.
+    + exact H3.
+    + exact H4.
+    + exact H5.
+    + intros c0 p0 K0 Hf. destruct (Nat.eq_dec c0 c) as [->|Hne].
+      * destruct (Hff c p0 K0 p K Hf HFh) as [-> ->]. exists d.
+        split; [apply nth_set_nth_same; exact Hcl|]. split; [apply get_cell_set_same|]. split; [exact Hplt | split; [exact Hdh | exact Hdk]].
+      * assert (p0 <> p) by (intros ->; apply Hne; eapply Hfi; eassumption).
+        destruct (H6 c0 p0 K0 Hf) as (dd & A & B & C0 & D & Dk). exists dd.
+        split; [rewrite nth_set_nth_other by congruence; exact A|]. split; [rewrite get_cell_set_other by assumption; exact B|].
+        split; [exact C0 | split; [exact D | exact Dk]].
+    + exact H7.
+    + exact Hff.
+    + intros p0 lv Hq0. destruct (H8 p0 lv Hq0) as [A B]. split; [|exact B].
+      rewrite get_cell_set_other; [exact A|]. intros ->. exact (H7 c p K lv HFh Hq0).
+    + rewrite nth_set_nth_other; [exact H9|]. intros ->. rewrite H9 in Hn0. discriminate Hn0.
+    + exact H10.
+    + exact Hall.
+    + exact Hlock.
+    + exact H11.
+    + exact H13.
+    + exact H14.
+    + exact Hfi.
+Qed.
+
+(* ICopy t a for a temporary that holds a closure: `local V<t> = <a>` *)
+Lemma step_copy_clos fl W sc e st F c c' E stL l t a fid :
+  rel pv sv bound u fl W sc e st E stL -> ctx_ok bound l F E c c' -> c <= t < c' -> 1 <= count_of u t ->
+  ldenotes F E stL (aexpand l a) (VFun fid) ->
+  exists E' stL' F',
+    okstep pv sv bound u fl W sc e st F c c' E stL (fst (agen_one u l (ICopy t a))) E' stL' F' /\
+    ldenotes F' E' stL' (aexpand l t) (VFun fid).
+Proof.
+  intros Hrel Hctx Ht Hu Hd. pose proof Hctx as [Hb Hl HF HE].
+  pose proof (r_wf _ _ _ _ _ _ _ _ _ _ _ Hrel) as Hwf. pose proof (r_linv _ _ _ _ _ _ _ _ _ _ _ Hrel) as Hli.
+  cbn [agen_one]. assert (Hused : (0 <? count_of u t) = true) by (apply N.ltb_lt; lia). rewrite Hused. cbn [fst].
+  rewrite (aname_none l t) by (apply Hl; left; exact Ht).
+  destruct (step_local pv sv bound u fl W sc e st F c c' E stL l t (aexpand l a) (VFun fid) Hrel Hctx Ht (Hd E stL (fut_refl _ _ _) Hwf Hli))
+    as (E' & stL' & q & Hok & Hq & Hc).
+  exists E', stL', (t :: F). split; [exact Hok|].
+  unfold aexpand at 1. rewrite (Hl t) by (left; exact Ht).
+  eapply ldenotes_local; [left; reflexivity | exact Hq | exact Hc].
 Qed.
 
 (* the names a list of parameters must avoid: fewer names, still fresh *)
@@ -641,7 +729,7 @@ Proof.
     + (* a function parameter *)
       cbn [arel] in Hv. destruct Hv as (d & Hd & Hdk & -> & ->).
       pose proof (rel_define_fparam fl W sc e st E stL p d Hrel Hf Hd) as Hrel1. rewrite Hdk in Hrel1.
-      set (W0 := world_addF W (length (SyltSem.cells st)) (s_ncell stL) d) in *.
+      set (W0 := world_addF W (length (SyltSem.cells st)) (s_ncell stL) (KF ka kr)) in *.
       assert (Hvs0 : Forall3 (arel W0) ks avs' lvs').
       { clear - Hvs'. induction Hvs' as [|K av lv ks avs lvs Hh _ IHv]; constructor; [|exact IHv].
         destruct K; [exact Hh|]. cbn [arel] in *. destruct Hh as (d0 & A & B). exists d0. split; [exact A | exact B]. }
@@ -803,7 +891,93 @@ Proof.
       rewrite (frag_stmts_plain _ _ _ _ _ _ _ _ Hfd) in Hfrag.
       destruct (frag_stmt pv sv bound fl k sc s) as [sc1|] eqn:Hs.
       2: { (* x :: <function value> *)
-        destruct (cdef_next_inv _ _ _ _ _ _ _ _ _ Hfrag) as (nm & x & kd & t & v & sp & K & -> & Hfe & Hfr & Hrest).
+        destruct (cdef_next_inv _ _ _ _ _ _ _ _ _ Hfrag) as [(nm & x & kd & t & v & sp & K & -> & Hfe & Hfr & Hrest)|(h & hsp & v & sp & ka & kr & -> & Hk & Hfe & Hrest)].
+        2: { (* h = <function value> *)
+          apply fun_kind_in in Hk.
+          assert (HK : KF ka kr <> KP) by discriminate.
+          destruct g as [|[|g2]]; [cbn in Hy; discriminate Hy | cbn in Hy; discriminate Hy |]. cbn [statement] in Hy.
+          mon Hy. fresh_all. apply ret_ok in Hm0 as [<- <-]. cbn beta iota in Hy. mon Hy. apply ret_ok in Hm0 as [<- <-].
+          destruct a as [code_v rv]. cbn [fst snd app] in *. rename c0 into c1.
+          apply ucovers_app in Huy as [Huv Hua].
+          assert (Hcrv : 1 <= count_of u rv) by (eapply Hua; [left; reflexivity | left; reflexivity]).
+          assert (Hcc : 1 <= count_of u c) by (eapply Hua; [right; left; reflexivity | right; left; reflexivity]).
+          assert (Hch : 1 <= count_of u h) by (eapply Hua; [right; left; reflexivity | left; reflexivity]).
+          assert (Hhb : h < bound).
+          { destruct (r_flb _ _ _ _ _ _ _ _ _ _ _ Hrel h); [|assumption]. unfold fnames. apply in_map_iff. eexists. split; [|exact Hk]. reflexivity. }
+          destruct (L_fexpr_all pv sv bound u fl (S g2) k v _ ctx (c + 1) code_v rv c1 sc l Hm Hfe) as (_ & _ & (_ & Hcc1 & _) & _).
+          destruct (L_stmts_all pv sv bound u fl (S (S g2)) k ss ctx c1 ys c' sc (sc', flr) l Hys Hrest) as (_ & _ & (_ & Hc1c' & _)).
+          assert (HLr : forall l0, exists b2 l2, cshape u l0 (concat ys) b2 l2 c1 c')
+            by (intros l0; eapply (L_stmts_all pv sv bound u fl (S (S g2))); eassumption).
+          assert (Hsc0 : forall l0, cshape u l0 [ICopy c rv; IAssign h c] (fst (agen_one u l0 (ICopy c rv)) ++ fst (agen_one u l0 (IAssign h c))) l0 c c1).
+          { intros l0. eapply cshape_cons'; [apply (cshape_plain u l0 (ICopy c rv) c c1); [lia | reflexivity | reflexivity | apply used_plain]|].
+            apply (cshape_plain u l0 (IAssign h c) c c1); [lia | reflexivity | reflexivity | apply used_plain]. }
+          assert (Hmk : forall b1 l1, cshape u l code_v b1 l1 (c + 1) c1 ->
+                    cshape u l (code_v ++ [ICopy c rv; IAssign h c]) (b1 ++ fst (agen_one u l1 (ICopy c rv)) ++ fst (agen_one u l1 (IAssign h c))) l1 c c1).
+          { intros b1 l1 H1. eapply cshape_app'; [eapply cshape_widen; [exact H1 | lia | lia] | apply Hsc0]. }
+          assert (Hctxv : ctx_ok l F E (c + 1) c1) by (eapply ctx_sub; [exact Hctx | lia | lia]).
+          destruct n as [|n2]; [cbn in Hev; inversion Hev; subst; destruct Hint|]. cbn [pred] in HX.
+          destruct (rel_fscope pv sv bound u fl W sc e st E stL Hrel h _ Hk HK) as (ch & ph & Hlk & HqE0 & _).
+          destruct (SyltSem.exec (S n2) e (SAssignment Nop (ERead h hsp) v sp) st) as [rr stx] eqn:He0.
+          cbn [SyltSem.exec] in He0. rewrite Hlk in He0. unfold SyltSem.bind at 1 in He0.
+          destruct (SyltSem.eval n2 e v st) as [[y_|o|cc] st2] eqn:He1.
+          2,3: (inversion He0; subst rr stx; inversion Hev; subst r st';
+                destruct (HX fl W (S g2) k v _ ctx (c + 1) code_v rv c1 e st _ st2 sc l E stL F He1 Hm Hfe Huv Hcrv Hctxv Hrel Hint)
+                  as (b1 & l1 & Hs1 & _ & _ & Hp1);
+                destruct (HLr l1) as (b2 & l2 & Hs2);
+                eexists _, _; (split; [eapply cshape_app; [apply (Hmk b1 l1 Hs1) | exact Hs2]|]);
+                cbn [blk_post]; apply (exit_app pv sv bound u fl W ctx sc e c c1 c'); [|lia];
+                apply (exit_app pv sv bound u fl W ctx sc e c c1 c1); [|lia];
+                eapply (xpost_widen pv sv bound u fl W ctx sc e (c + 1) c1 c c1); [exact Hp1 | lia | lia]).
+          destruct (HX fl W (S g2) k v _ ctx (c + 1) code_v rv c1 e st _ st2 sc l E stL F He1 Hm Hfe Huv Hcrv Hctxv Hrel I)
+            as (b1 & l1 & Hs1 & _ & _ & W1 & E1 & stL1 & F1 & Hw1 & Hok1 & Hrel1 & Hd1).
+          cbn [adenotes] in Hd1. destruct Hd1 as (d & Hd & Hdk & -> & Hld).
+          pose proof Hok1 as (Hx1 & Hf1 & _ & HFn1 & Hk1). pose proof Hs1 as (_ & _ & Hfr1 & _).
+          cbn in He0. inversion He0; subst rr stx. clear He0.
+          (* local V<res> = the closure *)
+          assert (Hctxr : ctx_ok l1 F1 E1 c (c + 1)).
+          { eapply (ctx_disj bound l F E stL c (c + 1) (c + 1) c1 l1 F1 E1 stL1); [eapply ctx_sub; [exact Hctx | lia | lia] | exact Hfr1 | exact HFn1 | exact Hf1 | lia | right; lia]. }
+          destruct (step_copy_clos pv sv bound u fl W1 sc e st2 F1 c (c + 1) E1 stL1 l1 c rv (fd_fid d) Hrel1 Hctxr ltac:(lia) Hcc Hld)
+            as (E2 & stL2 & F2 & Hok2 & Hd2).
+          pose proof Hok2 as (Hx2 & Hf2 & Hrel2 & HFn2 & Hk2).
+          (* V<h> = V<res> *)
+          destruct (rel_fscope pv sv bound u fl W1 sc e st2 E2 stL2 Hrel2 h _ Hk HK) as (ch2 & ph2 & Hlk2 & HqE2 & _).
+          rewrite Hlk in Hlk2. inversion Hlk2; subst ch2. clear Hlk2.
+          assert (Hlcv : lut_ok bound l1 c1 c1) by (intros t0 [Ht0|Ht0]; [lia | rewrite Hfr1 by lia; apply Hlut; right; exact Ht0]).
+          destruct (step_cassign pv sv bound u fl W1 sc e st2 E2 stL2 l1 c1 c1 h c ph2 F2 (fd_fid d) Hrel2 Hlcv Hhb Hch HqE2 Hd2)
+            as (st3 & Hx3 & Hxa & Hfa).
+          pose proof (rel_fassign pv sv bound u fl W1 sc e st2 E2 st3 h _ ch ph2 d
+                        (rel_cells_ext pv sv bound u _ _ _ _ _ _ _ _ Hrel2 Hx3) Hk HK Hd Hdk Hlk HqE2) as Hrel3.
+          set (stL3 := set_cell st3 ph2 (VFun (fd_fid d))) in *.
+          set (bpre := b1 ++ fst (agen_one u l1 (ICopy c rv)) ++ fst (agen_one u l1 (IAssign h c))).
+          assert (Hxpre : ExecS E bpre stL (ROk (E2, SigNormal) stL3)).
+          { unfold bpre. eapply ExecS_app; [exact Hx1|]. eapply ExecS_app; [exact Hx2 | exact Hxa]. }
+          assert (Hfpre : wframe bound c c1 E stL E2 stL3).
+          { eapply wframe_trans; [eapply wframe_widen; [exact Hf1 | lia | lia]|].
+            eapply wframe_trans; [eapply wframe_widen; [exact Hf2 | lia | lia] | eapply wframe_widen; [exact Hfa | lia | lia]]. }
+          assert (Hkpre : keep fl sc E E2) by (eapply keep_trans; eassumption).
+          assert (HFpre : F_new F F2 c c1).
+          { destruct HFn1 as [Hi1 Hn1]. destruct HFn2 as [Hi2 Hn2]. split; [eapply incl_tran; eassumption|].
+            intros t0 Ht0. destruct (Hn2 t0 Ht0) as [H|H]; [destruct (Hn1 t0 H) as [H'|H']; [left; exact H' | right; lia] | right; lia]. }
+          assert (Hctx2 : ctx_ok l1 F2 E2 c1 c').
+          { eapply (ctx_step bound l F E stL c c1 c'); [exact Hctx | | exact HFpre | exact Hfpre | lia].
+            intros w Hw. apply Hfr1. lia. }
+          destruct (HB fl W1 (S (S g2)) k ss ctx c1 ys c' e _ r st' sc sc' flr l1 E2 stL3 F2 Hev Hys Hrest Huys Hctx2 Hrel3 Hint)
+            as (b2 & l2 & Hs2 & Hpost).
+          eexists _, _. split; [eapply cshape_app; [apply (Hmk b1 l1 Hs1) | exact Hs2]|]. fold bpre.
+          destruct r as [e2|o|a].
+          - cbn [blk_post] in *. destruct Hpost as (W3 & E3 & stL4 & F3 & Hx4 & Hf4 & Hr4 & Hw4 & HFn4 & Hk4 & Hs4 & Hi4).
+            exists W3, E3, stL4, F3.
+            splits; [eapply ExecS_app; eassumption
+                    | eapply wframe_trans; [eapply wframe_widen; [exact Hfpre | lia | lia] | eapply wframe_widen; [exact Hf4 | lia | lia]]
+                    | exact Hr4 | eapply wsub_trans; eassumption
+                    | eapply F_new_trans; [exact HFpre | exact HFn4 | lia | lia]
+                    | eapply keep_trans; eassumption | exact Hs4 | exact Hi4].
+          - cbn [blk_post] in *.
+            eapply (exit_pre_w pv sv bound u fl W fl W1 ctx sc sc e e st c c1 c1 c' c c' E stL bpre E2 stL3);
+              [exact Hxpre | exact Hfpre | exact Hkpre | exact Hrel | exact Hw1 | apply incl_refl | apply sext_refl | apply incl_refl | exact Hpost | lia | lia | lia | lia].
+          - cbn [blk_post] in *.
+            eapply (exit_pre_w pv sv bound u fl W fl W1 ctx sc sc e e st c c1 c1 c' c c' E stL bpre E2 stL3);
+              [exact Hxpre | exact Hfpre | exact Hkpre | exact Hrel | exact Hw1 | apply incl_refl | apply sext_refl | apply incl_refl | exact Hpost | lia | lia | lia | lia]. }
         assert (Hnf : is_function v = false) by (destruct v; try reflexivity; discriminate Hfd).
         pose proof (frag_fexpr_KF pv sv bound _ _ _ _ _ Hfe) as HK.
         destruct g as [|[|g2]]; [cbn in Hy; discriminate Hy | cbn in Hy; discriminate Hy |]. cbn [statement] in Hy.
@@ -870,7 +1044,7 @@ Proof.
         pose proof (rel_cdef pv sv bound u fl W sc e st E stL x W1 st2 E2 st3 d Hrel Hw1 Hd
                       (rel_cells_ext pv sv bound u _ _ _ _ _ _ _ _ Hrel2 Hx3) HxE2 Hfr) as Hrel3.
         fold c0 p0 e' in Hrel3. rewrite Hdk in Hrel3. fold fl' in Hrel3.
-        set (W2 := world_addF (world_addD W d) c0 p0 d) in *.
+        set (W2 := world_addF (world_addD W d) c0 p0 (KF ka kr)) in *.
         set (stL3 := set_cell st3 p0 (VFun (fd_fid d))) in *.
         assert (Hww2 : wsub W W2) by (eapply wsub_trans; [apply wsub_addD | apply wsub_addF]).
         (* the prefix as one step *)
@@ -1658,11 +1832,11 @@ Lemma callee_rel fl W1 d sc e st E stL :
 Proof.
   intros Hrel Hd.
   pose proof Hrel as [Hb Hfb Hp Hpb HpE HpG Hwf Ht Hli HW].
-  pose proof HW as [H1 H2 H3 H4 H5 H6 H7 Hff H8 H9 H10 Hall Hlock H11 H13 H14].
+  pose proof HW as [H1 H2 H3 H4 H5 H6 H7 Hff H8 H9 H10 Hall Hlock H11 H13 H14 Hfi].
   destruct (H10 d Hd) as (Hst & Hclo & HcloL & Halloc & Hfid & Hci & Hpc & Hsc & Hfl & Htm).
   apply rel_of0.
-  { intros f ar Hin HK. destruct (Hfl f ar Hin HK) as (c & p & d' & A & B & C & D). exists c, p, d'.
-    cbn [callee_world w_F w_D]. destruct (H6 c p d' C) as (_ & _ & _ & Hd'). auto 10. }
+  { intros f ar Hin HK. destruct (Hfl f ar Hin HK) as (c & p & A & B & C). exists c, p.
+    cbn [callee_world w_F w_D]. auto. }
   constructor.
   - apply (fs_scb _ _ _ _ _ Hst).
   - apply (fs_flb _ _ _ _ _ Hst).
@@ -1690,6 +1864,7 @@ Proof.
     + exact Hsc.
     + apply (fs_scfl _ _ _ _ _ Hst).
     + exact Htm.
+    + exact Hfi.
 Qed.
 
 (* back in the caller after the call *)
@@ -1705,7 +1880,7 @@ Proof.
   pose proof (wsub_trans _ _ _ Hsc Hs2) as (HsR & HsF & HsD & HsP & Hspc).
   pose proof Hrel as [Hb Hfb Hp Hpb HpE HpG Hwf Ht Hli HW].
   pose proof Hrel2 as [Hb' Hfb' Hp' Hpb' HpE' HpG' Hwf' Ht' Hli' HW'].
-  pose proof HW' as [H1 H2 H3 H4 H5 H6 H7 Hff H8 H9 H10 Hall Hlock H11 H13 H14].
+  pose proof HW' as [H1 H2 H3 H4 H5 H6 H7 Hff H8 H9 H10 Hall Hlock H11 H13 H14 Hfi].
   cbn [callee_world w_R w_F w_D w_P w_pc] in HsR, HsF, HsD, HsP, Hspc.
   assert (Htemp : forall t p, bound <= t -> sget (fmt_var t) E = Some p -> w_P W2 p (get_cell stL p)).
   { intros t p Hbt Hq. apply HsP. right. exists t. auto. }
@@ -1744,6 +1919,7 @@ Proof.
       * intros t p Hbt Hq. pose proof (Htemp t p Hbt Hq) as Hpr. split.
         -- intros c b Hr. exact (H5 c p b _ Hr Hpr).
         -- intros c d Hf. exact (H7 c p d _ Hf Hpr).
+      * exact Hfi.
   - split; [exact Hnc|]. intros t p Hbt Hq. apply (H8 p _ (Htemp t p Hbt Hq)).
 Qed.
 
@@ -1759,8 +1935,7 @@ Proof.
     exists (world_addD W d). split; [apply wsub_addD|]. split.
     + cbn [arel]. exists d. split; [right; reflexivity | auto].
     + split.
-      * intros f K Hin HK. destruct (Hfs f K Hin HK) as (c & p & d' & A & B & C & D & F). exists c, p, d'.
-        split; [exact A | split; [exact B | split; [exact C | split; [exact D | left; exact F]]]].
+      * exact Hfs.
       * exists W3. split; [|exact Hrel]. destruct Hs as (A & B & C & D & F). unfold wsub, world_addD. cbn.
         split; [exact A|]. split; [exact B|]. split; [intros d0 [Hd0| ->]; [apply C; exact Hd0 | apply HD; exact Hd]|]. split; assumption.
 Qed.
